@@ -96,9 +96,10 @@ def eject_z(
             return [dump_tracked_phase(op.qubits), op]
 
         gate = op.gate
-        # Return if circuit operation.
-        if gate is None:
-            return [dump_tracked_phase(op.qubits), op]
+        # Return if circuit operation, or an operation on qudits (whose Z powers are not the qubit
+        # phases tracked here).
+        if gate is None or any(q.dimension != 2 for q in op.qubits):
+            return [dump_tracked_phase(q for q in op.qubits if q.dimension == 2), op]
 
         # Swap phases if `op` is a swap operation.
         if _is_swaplike(gate):
